@@ -29,6 +29,19 @@ build_variant() {
   mv -f "$tmp" "$BIN/$v/wsverif"
 }
 
+build_fuzz() {
+  mkdir -p "$BIN/fuzz"
+  local tmp="$BIN/fuzz/fuzz.test.$$"
+  # -fuzz at build time switches coverage instrumentation on for the test binary
+  if ! go test -c -tags verif -fuzz=Fuzz -o "$tmp" ./fuzz 2>"$BIN/fuzz/build.$$.log"; then
+    cat "$BIN/fuzz/build.$$.log" >&2; rm -f "$tmp" "$BIN/fuzz/build.$$.log"
+    echo "BUILD FAILED for the native fuzz targets" >&2
+    return 2
+  fi
+  rm -f "$BIN/fuzz/build.$$.log"
+  mv -f "$tmp" "$BIN/fuzz/fuzz.test"
+}
+
 variants_for() {
   case "$1" in
     C01|C03) echo plain asan checkptr ;;
@@ -53,6 +66,7 @@ case "${1:-}" in
     id="$1"; tier="${2:-quick}"
     [ -n "${VERIF_TIER:-}" ] && [ -z "${2:-}" ] && tier="$VERIF_TIER"
     for v in $(variants_for "$id"); do build_variant "$v" || exit 2; done
+    if [ "$id" = C07 ] && [ "$tier" = thorough ]; then build_fuzz || exit 2; fi
     export WSVERIF_BINDIR="$BIN"
     exec "$BIN/plain/wsverif" run "$id" "$tier" ;;
   *)
